@@ -35,8 +35,8 @@ func (a LE) add(b LE, s int64) LE {
 	return r
 }
 
-func (a LE) plus(b LE) LE   { return a.add(b, 1) }
-func (a LE) minus(b LE) LE  { return a.add(b, -1) }
+func (a LE) plus(b LE) LE    { return a.add(b, 1) }
+func (a LE) minus(b LE) LE   { return a.add(b, -1) }
 func (a LE) addK(k int64) LE { return a.add(leConst(k), 1) }
 
 func (a LE) scale(s int64) LE {
